@@ -6,8 +6,9 @@ from typing import Dict, List, Optional, Tuple
 
 from ..model import AnalysisError, Func, Program, walk_own
 from ..report import Report
-from ..resolve import const_value
-from ..util import returns_of, src
+from ..resolve import const_value, dotted
+from ..util import iter_stores, returns_of, src
+from .oneshot import check_oneshot
 from .c01 import batcher_idiom
 
 GENERIC_MOD = "windpyutils.generic"
@@ -32,10 +33,25 @@ def run(prog: Program, rep: Report):
                   "the tuple-input branch does not advance all sequences in lock-step with a single zip(*self.data)",
                   scenario="BatcherIter(([1,2,3], 'abc'), 2) must yield ([1,2], ['a','b']) then ([3], ['c'])")
         test = top[0].test
-        rep.check("C19.R1", f, "dispatch", isinstance(test, ast.Call) and src(test.func) == "isinstance"
-                  and src(test.args[0]) == f"{f.self_name}.data" and src(test.args[1]) == "tuple",
-                  "dispatch on isinstance(self.data, tuple)", "the tuple/single dispatch is not isinstance(self.data, tuple)",
-                  scenario="a single list input is batched element-wise as if it were a tuple of sequences")
+        direct = isinstance(test, ast.Call) and src(test.func) == "isinstance" and len(test.args) == 2
+        cached = None
+        init0 = bi.methods.get("__init__")
+        if not direct and init0 is not None and dotted(test) and len(dotted(test)) == 2 and dotted(test)[0] == f.self_name:
+            # the dispatch may be computed once in the constructor: self.<flag> = isinstance(<the parameter stored as self.data>, tuple)
+            data_params = {src(v) for t, v, _ in iter_stores(init0.node) if dotted(t) == (init0.self_name, "data") and v is not None}
+            for t, v, _ in iter_stores(init0.node):
+                if dotted(t) == (init0.self_name, dotted(test)[1]) and isinstance(v, ast.Call) and src(v.func) == "isinstance" and len(v.args) == 2:
+                    cached = src(v.args[0]) in data_params | {f"{init0.self_name}.data"} and src(v.args[1]) == "tuple"
+        if direct:
+            rep.check("C19.R1", f, "dispatch", src(test.args[0]) == f"{f.self_name}.data" and src(test.args[1]) == "tuple",
+                      "dispatch on isinstance(self.data, tuple)", "the tuple/single dispatch is not isinstance(self.data, tuple)",
+                      scenario="a single list input is batched element-wise as if it were a tuple of sequences")
+        elif cached is not None:
+            rep.check("C19.R1", f, "dispatch", cached, "dispatch on a flag the constructor computes as isinstance(<data>, tuple)",
+                      f"the dispatch flag `{src(test)}` is not isinstance(<data>, tuple)",
+                      scenario="a single list input is batched element-wise as if it were a tuple of sequences")
+        else:
+            rep.unrec("C19.R1", f, "dispatch", f"cannot tell what the dispatch test `{src(test)}` distinguishes")
     init = bi.methods.get("__init__")
     if init is not None:
         rep.fn(init)
@@ -67,6 +83,7 @@ def run(prog: Program, rep: Report):
     r3_arg_sort(prog, rep)
     r4_window_scan(prog, rep)
     r5_multiset(prog, rep)
+    r6_batcher(prog, rep)
 
 
 def r2_numerals(prog: Program, rep: Report):
@@ -199,7 +216,7 @@ def r4_window_scan(prog: Program, rep: Report):
 def r5_multiset(prog: Program, rep: Report):
     rep.rule("C19.R5", "compare_pos_in_iterables compares multisets: the recognised shapes are the remove-loop over a list copy "
              "(False on ValueError, True iff nothing is left) and Counter equality; a comparison through set() ignores "
-             "multiplicities", floor=1)
+             "multiplicities; the inputs (Iterable: possibly generators) are traversed at most once on every path", floor=2)
     f = prog.func("compare_pos_in_iterables", GENERIC_MOD)
     rep.fn(f)
     a, b = f.params[0], f.params[1]
@@ -215,7 +232,134 @@ def r5_multiset(prog: Program, rep: Report):
     final = any(isinstance(r.value, ast.Compare) and "len(" in src(r.value) and const_value(r.value.comparators[0]) == 0
                 for r in returns_of(f.node) if r.value is not None)
     counter = any(isinstance(n, ast.Call) and src(n.func).endswith("Counter") for n in ast.walk(f.node))
-    if (len(removes) == 1 and handler and final) or counter:
+    other_returns = [r for r in returns_of(f.node) if r.value is not None and const_value(r.value) is not False
+                     and not (isinstance(r.value, ast.Compare) and "len(" in src(r.value))
+                     and not (isinstance(r.value, ast.UnaryOp) and isinstance(r.value.op, ast.Not))
+                     and not (isinstance(r.value, ast.Compare) and any("Counter" in src(x) for x in ast.walk(r.value)))]
+    if other_returns and not counter:
+        rep.unrec("C19.R5", f, "multiset", f"a result is also produced by `{src(other_returns[0])}`, which is not part of the recognised "
+                  "remove-loop / Counter idioms", line=other_returns[0].lineno)
+    elif (len(removes) == 1 and handler and final) or counter:
         rep.ok("C19.R5", f, "multiset", "remove-loop over a list copy / Counter equality")
     else:
         rep.unrec("C19.R5", f, "multiset", "multiset comparison idiom not recognised")
+    check_oneshot(prog, rep, "C19.R5", f, role="one-shot",
+                  scenario="compare_pos_in_iterables(iter([0, 'a']), [0, 'a']) is False and compare_pos_in_iterables(iter([0, 'a']), []) is True")
+
+
+def r6_batcher(prog: Program, rep: Report):
+    rep.rule("C19.R6", "Batcher: __len__ is ceil(n / batch_size) with n the *current* length of the wrapped data (no count cached at "
+             "construction: data is a public attribute and the sequences may change); __getitem__ raises IndexError exactly for "
+             "item >= len(self) (orderings) and returns the slice [item*batch_size : item*batch_size + batch_size] of the data "
+             "(every sequence of a tuple)", floor=3)
+    from ..flow import Flow
+    from ..orderings import NotAFormula, eval_order, weak_orderings
+    from .c15 import _linear, _norm_lin
+    bc = prog.cls("Batcher", GENERIC_MOD)
+    ln = prog.method(bc, "__len__")
+    gi = prog.method(bc, "__getitem__")
+    rep.fn(ln, gi)
+    me = ln.self_name
+    # ---- __len__
+    flow = Flow(ln.node)
+    rets = [r for r in returns_of(ln.node) if r.value is not None]
+    fields = {dotted(n)[1] for n in ast.walk(ln.node) if isinstance(n, ast.Attribute) and dotted(n) and len(dotted(n)) == 2 and dotted(n)[0] == me}
+    init = prog.method(bc, "__init__")
+    param_fields = {dotted(t)[1]: v.id for t, v, _ in iter_stores(init.node)
+                    if dotted(t) and len(dotted(t)) == 2 and dotted(t)[0] == init.self_name and isinstance(v, ast.Name) and v.id in init.params}
+    data_f = next((k for k, v in param_fields.items() if v == init.params[1]), None)
+    size_f = next((k for k, v in param_fields.items() if v == init.params[2]), None)
+    if data_f is None or size_f is None or len(rets) != 1:
+        rep.unrec("C19.R6", ln, "len", "constructor does not store (data, batch_size) in two fields / __len__ has not one return")
+        return
+    cached = sorted(fields - {data_f, size_f})
+    if cached:
+        rep.viol("C19.R6", ln, "len", f"__len__ reads self.{cached[0]}, a value computed outside __len__ (at construction), instead of the "
+                 f"current length of self.{data_f}",
+                 scenario="b = Batcher(lst, 2); lst.append(x): len(b) is stale, the new tail is unreachable (IndexError) and iteration "
+                          "drops it; after lst.pop() trailing empty batches are returned instead of IndexError")
+    else:
+        v = rets[0].value
+        n_expr = None
+        form = None
+        if isinstance(v, ast.Call) and (src(v.func) in ("math.ceil", "ceil")) and len(v.args) == 1 and isinstance(v.args[0], ast.BinOp) \
+                and isinstance(v.args[0].op, ast.Div) and src(v.args[0].right) == f"{me}.{size_f}":
+            n_expr, form = v.args[0].left, "math.ceil(n / batch_size)"
+        elif isinstance(v, ast.BinOp) and isinstance(v.op, ast.FloorDiv) and src(v.right) == f"{me}.{size_f}" and isinstance(v.left, ast.BinOp):
+            lin = _linear(v.left, lambda x: "bs" if src(x) == f"{me}.{size_f}" else ("n" if not isinstance(x, ast.Constant) else None))
+            if lin is not None and _norm_lin(lin) == {"n": 1, "bs": 1, "1": -1}:
+                n_expr, form = "linear", "(n + batch_size - 1) // batch_size"
+        floorish = (isinstance(v, ast.Call) and src(v.func) in ("math.floor", "floor", "int", "round") and len(v.args) == 1
+                    and isinstance(v.args[0], ast.BinOp) and isinstance(v.args[0].op, ast.Div)) or \
+            (isinstance(v, ast.BinOp) and isinstance(v.op, ast.FloorDiv) and not isinstance(v.left, ast.BinOp))
+        if n_expr is None and floorish:
+            rep.viol("C19.R6", ln, "len", f"`{src(v)}` rounds the number of batches down (or to nearest): the shorter last batch is not counted",
+                     scenario="len(Batcher([1,2,3], 2)) == 1, so b[1] raises IndexError and [3] is lost")
+        elif n_expr is None:
+            rep.unrec("C19.R6", ln, "len", f"`{src(v)}` is not a recognised ceiling division of the sample count by self.{size_f}")
+        else:
+            ne = flow.expand(n_expr) if isinstance(n_expr, ast.AST) else None
+            txt = src(ne) if ne is not None else ""
+            want = {f"len({me}.{data_f}[0]) if isinstance({me}.{data_f}, tuple) else len({me}.{data_f})",
+                    f"len({me}.{data_f}) if not isinstance({me}.{data_f}, tuple) else len({me}.{data_f}[0])"}
+            ok = form.startswith("(n") or txt in want
+            rep.check("C19.R6", ln, "len", ok, f"{form} with n = {txt or 'the sample count'}",
+                      f"the sample count `{txt}` is not len(data[0]) for a tuple of sequences / len(data) otherwise",
+                      scenario="len(Batcher(([1,2,3],[4,5,6]), 2)) must be 2, not ceil(2/2)")
+    # ---- __getitem__
+    item = gi.params[1]
+    me = gi.self_name
+    guards = [n for n in gi.node.body if isinstance(n, ast.If) and any(isinstance(x, ast.Raise) for x in n.body)]
+    if len(guards) != 1:
+        rep.unrec("C19.R6", gi, "index-guard", "expected one raising guard in __getitem__")
+    else:
+        g = guards[0]
+
+        def term(x):
+            if src(x) == f"len({me})":
+                return env["len"]
+            return None
+        try:
+            bad = []
+            for env in weak_orderings([item, "len"]):
+                if eval_order(g.test, env, term) != (env[item] >= env["len"]):
+                    bad.append(env)
+            raises_ie = any(isinstance(x, ast.Raise) and x.exc is not None and "IndexError" in src(x.exc) for x in g.body)
+            rep.check("C19.R6", gi, "index-guard", not bad and raises_ie, f"`{src(g.test)}` raises IndexError exactly when item >= len(self)",
+                      f"`{src(g.test)}` is not `item >= len(self)` (wrong for {bad[:1]}) or does not raise IndexError",
+                      scenario="Batcher([1,2,3], 2)[2] must raise IndexError, [1] must return [3]", line=g.lineno)
+        except NotAFormula as e:
+            rep.unrec("C19.R6", gi, "index-guard", f"guard is not a comparison of the index with len(self): {e}")
+    flow = Flow(gi.node)
+
+    def sym(x):
+        t = src(x)
+        if isinstance(x, ast.BinOp) and isinstance(x.op, ast.Mult) and {src(x.left), src(x.right)} == {item, f"{me}.{size_f}"}:
+            return "ib"
+        if t == f"{me}.{size_f}":
+            return "bs"
+        return None
+
+    def lin(e):
+        def subst(x):
+            if isinstance(x, ast.Name) and x.id != item:
+                ex_ = flow.expand(x)
+                return subst(ex_) if ex_ is not x else x
+            if isinstance(x, ast.BinOp) and sym(x) is None:
+                return ast.BinOp(left=subst(x.left), op=x.op, right=subst(x.right))
+            return x
+        return _linear(subst(e), sym)
+    slices = [n for n in ast.walk(gi.node) if isinstance(n, ast.Subscript) and isinstance(n.slice, ast.Slice)]
+    bad_sl = []
+    for sl in slices:
+        lo = lin(sl.slice.lower) if sl.slice.lower is not None else {"1": 0}
+        hi = lin(sl.slice.upper) if sl.slice.upper is not None else None
+        if sl.slice.step is not None or lo is None or hi is None or _norm_lin(lo) != {"ib": 1} or _norm_lin(hi) != {"ib": 1, "bs": 1}:
+            bad_sl.append(sl)
+    if len(slices) < 2:
+        rep.unrec("C19.R6", gi, "slice", "expected a slice of the data in both arms of the tuple/single dispatch")
+    else:
+        rep.check("C19.R6", gi, "slice", not bad_sl, f"{len(slices)} slices [item*batch_size : item*batch_size + batch_size]",
+                  f"`{src(bad_sl[0]) if bad_sl else ''}` is not the slice [item*batch_size : item*batch_size + batch_size]",
+                  scenario="batches overlap or skip elements: their concatenation is not the input",
+                  line=bad_sl[0].lineno if bad_sl else None)
